@@ -1400,6 +1400,9 @@ def remove_redundant_transpose_pairs_ir(graph: ir.Graph) -> None:
                 if not ok:
                     break
 
+                if _value_is_observed(graph, nodes, out):
+                    ok = False
+                    break
                 add_chain.append(cur)
                 if add_consumers:
                     prev = cur
@@ -1495,6 +1498,9 @@ def remove_redundant_transpose_pairs_ir(graph: ir.Graph) -> None:
                 out = _node_output(node)
                 if out is None:
                     continue
+                if _value_is_observed(graph, nodes, out):
+                    ok = False
+                    break
                 for consumer in _consumer_nodes(nodes, out):
                     if consumer in elem_nodes:
                         continue
@@ -1578,6 +1584,8 @@ def remove_redundant_transpose_pairs_ir(graph: ir.Graph) -> None:
             t1_out = _node_output(T1)
             if t1_out is None:
                 continue
+            if _value_is_observed(graph, nodes, t1_out):
+                continue
             ok = True
             for consumer in _consumer_nodes(nodes, t1_out):
                 if consumer is t2_node:
@@ -1591,6 +1599,9 @@ def remove_redundant_transpose_pairs_ir(graph: ir.Graph) -> None:
                 out = _node_output(node)
                 if out is None:
                     continue
+                if _value_is_observed(graph, nodes, out):
+                    ok = False
+                    break
                 for consumer in _consumer_nodes(nodes, out):
                     if consumer is t2_node:
                         continue
@@ -1639,6 +1650,9 @@ def remove_redundant_transpose_pairs_ir(graph: ir.Graph) -> None:
 
             # Case 1: Single consumer - use existing chain-following logic
             if len(consumers) == 1:
+                if _value_is_observed(graph, nodes, T1_out):
+                    i += 1
+                    continue
                 chain_nodes: List[ir.Node] = [T1]
                 allowed_nodes: List[ir.Node] = []
                 cur = consumers[0]
@@ -1648,9 +1662,11 @@ def remove_redundant_transpose_pairs_ir(graph: ir.Graph) -> None:
                     steps += 1
                     m = cur
                     if m.op_type in ALLOWED_ELEMWISE:
+                        cur_val = _node_output(m)
+                        if _value_is_observed(graph, nodes, cur_val):
+                            break
                         chain_nodes.append(m)
                         allowed_nodes.append(m)
-                        cur_val = _node_output(m)
                         next_nodes = _consumer_nodes(nodes, cur_val)
                         if len(next_nodes) != 1:
                             break
@@ -2202,6 +2218,22 @@ def _value_is_graph_output(graph: ir.Graph, value: ir.Value | None) -> bool:
         if value_name and value_name == _v_name(output):
             return True
     return False
+
+
+def _value_is_observed(
+    graph: ir.Graph, nodes: Sequence[ir.Node], value: ir.Value | None
+) -> bool:
+    """Return whether a value is visible outside top-level node inputs.
+
+    Graph outputs and values captured by nested control-flow bodies are not
+    reported by ``_consumer_nodes``; rewrites that change or delete such a value
+    must treat them as consumers.
+    """
+    if value is None:
+        return False
+    return _value_is_graph_output(graph, value) or _nested_graph_references_value(
+        nodes, value
+    )
 
 
 def rewrite_mul_sigmoid_as_swish_ir(graph: ir.Graph) -> None:
